@@ -917,6 +917,35 @@ def _propagate_in_function(fn, final):
                     done += 1
                     continue
         i += 1
+    # the same alias taken inside a nested block (`with self.__lock: tasks = self._queue ...`): bound once in the whole function
+    def _final_chain2(x):
+        if isinstance(x, ast.Attribute) and isinstance(x.value, ast.Name) and x.value.id == "self":
+            return x.attr in final
+        return False
+    if "self" in params and stores.get("self", 0) == 0:
+        for holder in ast.walk(fn):
+            for fld in ("body", "orelse", "finalbody"):
+                blk = getattr(holder, fld, None)
+                if not isinstance(blk, list) or holder is fn:
+                    continue
+                for st in list(blk):
+                    if isinstance(st, ast.Assign) and len(st.targets) == 1 and isinstance(st.targets[0], ast.Name) and _final_chain2(st.value):
+                        a = st.targets[0].id
+                        if stores.get(a, 0) != 1 or a in params:
+                            continue
+                        # every use of the alias comes after the assignment, in the same block (otherwise a path exists on
+                        # which the name is read unbound: that behaviour must stay visible)
+                        idx = [k for k, x in enumerate(blk) if x is st][0]
+                        later = set(id(n) for b in blk[idx + 1:] for n in ast.walk(b) if isinstance(n, ast.Name) and n.id == a)
+                        every = set(id(n) for n in ast.walk(fn) if isinstance(n, ast.Name) and n.id == a and n is not st.targets[0])
+                        if every != later:
+                            continue
+                        blk.remove(st)
+                        if not blk:
+                            blk.append(ast.Pass())
+                        for k in range(len(fn.body)):
+                            fn.body[k] = _AliasSubst(a, st.value).visit(fn.body[k])
+                        done += 1
     if done:
         ast.fix_missing_locations(fn)
     return done
@@ -982,11 +1011,35 @@ class _CallLambda(ast.NodeTransformer):
         return ast.copy_location(Sub().visit(copy.deepcopy(f.body)), node)
 
 
+class _LiteralAttr(ast.NodeTransformer):
+    """getattr(x, "name") -> x.name ; setattr(x, "name", v) as a statement -> x.name = v   (literal identifier that is not
+    class-private: inside a class body `x.__n` would be mangled while the string is not)"""
+
+    @staticmethod
+    def _ok(e):
+        return isinstance(e, ast.Constant) and isinstance(e.value, str) and e.value.isidentifier() and not e.value.startswith("__")
+
+    def visit_Call(self, node):
+        self.generic_visit(node)
+        if isinstance(node.func, ast.Name) and node.func.id == "getattr" and len(node.args) == 2 and not node.keywords and self._ok(node.args[1]):
+            return ast.copy_location(ast.Attribute(value=node.args[0], attr=node.args[1].value, ctx=ast.Load()), node)
+        return node
+
+    def visit_Expr(self, node):
+        self.generic_visit(node)
+        c = node.value
+        if isinstance(c, ast.Call) and isinstance(c.func, ast.Name) and c.func.id == "setattr" and len(c.args) == 3 and not c.keywords and self._ok(c.args[1]):
+            return ast.copy_location(ast.Assign(targets=[ast.Attribute(value=c.args[0], attr=c.args[1].value, ctx=ast.Store())], value=c.args[2]), node)
+        return node
+
+
 def deselect_module(tree):
     """Rewrite calls through a (callable, arguments) pair chosen by an if/else into the two direct calls (in place)."""
     n = 0
     counter = [0]
     _CallLambda().visit(tree)
+    _LiteralAttr().visit(tree)
+    ast.fix_missing_locations(tree)
     _ReturnIfExp().visit(tree)
     for st in ast.walk(tree):
         if isinstance(st, ast.FunctionDef):
@@ -1111,6 +1164,7 @@ def inline_module(module_name, tree):
     if did:
         # the expanded bodies may contain the idioms the earlier passes normalise (aliases, displays spread into calls, ...)
         _ReturnIfExp().visit(tree)
+        _LiteralAttr().visit(tree)
         ast.fix_missing_locations(tree)
         counter = [1000]
         for st in ast.walk(tree):
